@@ -184,6 +184,31 @@ impl<'a, 'tcx> Cx<'a, 'tcx> {
         out
     }
 
+    /// For every projection element of `p`: the def path of the ADT owning the
+    /// field (null for non-field elements or non-ADT bases).
+    fn place_owners(&self, p: &Place<'tcx>) -> String {
+        let mut out = Vec::new();
+        let mut pty = rustc_middle::mir::PlaceTy::from_ty(
+            self.body.local_decls[p.local].ty,
+        );
+        for elem in p.projection.iter() {
+            let s = match elem {
+                ProjectionElem::Field(..) => match pty.ty.kind() {
+                    ty::Adt(adt, _) => jstr(&dpath(self.tcx, adt.did())),
+                    ty::Closure(did, _) | ty::Coroutine(did, _) => {
+                        jstr(&format!("closure:{}", dpath(self.tcx, *did)))
+                    }
+                    ty::Tuple(_) => "\"tuple\"".to_string(),
+                    _ => "null".to_string(),
+                },
+                _ => "null".to_string(),
+            };
+            out.push(s);
+            pty = pty.projection_ty(self.tcx, elem);
+        }
+        format!("[{}]", out.join(","))
+    }
+
     fn constant(&self, c: &Const<'tcx>) -> String {
         let ty = c.ty();
         let mut fields = vec![format!("\"ty\":{}", jstr(&tystr(ty)))];
@@ -261,12 +286,13 @@ impl<'a, 'tcx> Cx<'a, 'tcx> {
                 jstr(&format!("{}", n))
             ),
             Rvalue::Ref(_, bk, p) => format!(
-                "{{\"r\":\"ref\",\"mut\":{},\"p\":{}}}",
+                "{{\"r\":\"ref\",\"mut\":{},\"p\":{},\"po\":{}}}",
                 matches!(bk, BorrowKind::Mut { .. }),
-                self.place(p)
+                self.place(p),
+                self.place_owners(p)
             ),
             Rvalue::RawPtr(_, p) => {
-                format!("{{\"r\":\"rawptr\",\"p\":{}}}", self.place(p))
+                format!("{{\"r\":\"rawptr\",\"p\":{},\"po\":{}}}", self.place(p), self.place_owners(p))
             }
             Rvalue::Cast(kind, o, ty) => format!(
                 "{{\"r\":\"cast\",\"kind\":{},\"o\":{},\"ty\":{}}}",
@@ -456,10 +482,11 @@ impl<'a, 'tcx> Cx<'a, 'tcx> {
                     args.iter().map(|o| self.operand(&o.node)).collect();
                 let cs = sp.source_callsite();
                 format!(
-                    "{{\"t\":\"call\",\"fn\":{},\"args\":[{}],\"dest\":{},\"to\":{},\"unwind\":{},{},\"cs\":{},\"macros\":{},\"fnspan\":{}}}",
+                    "{{\"t\":\"call\",\"fn\":{},\"args\":[{}],\"dest\":{},\"desto\":{},\"to\":{},\"unwind\":{},{},\"cs\":{},\"macros\":{},\"fnspan\":{}}}",
                     self.callee(func),
                     a.join(","),
                     self.place(destination),
+                    self.place_owners(destination),
                     match target {
                         Some(b) => format!("{}", Self::bb(*b)),
                         None => "null".into(),
@@ -624,8 +651,9 @@ impl<'a, 'tcx> Cx<'a, 'tcx> {
                 };
                 let j = match &st.kind {
                     StatementKind::Assign(b) => Some(format!(
-                        "{{\"s\":\"assign\",\"lhs\":{},\"rv\":{},\"line\":{},\"exp\":{}}}",
+                        "{{\"s\":\"assign\",\"lhs\":{},\"lo\":{},\"rv\":{},\"line\":{},\"exp\":{}}}",
                         self.place(&b.0),
+                        self.place_owners(&b.0),
                         self.rvalue(&b.1),
                         line,
                         st.source_info.span.from_expansion()
